@@ -99,7 +99,7 @@ Proof. exact components_nonvacuous. Qed.
 Print Assumptions C16_components_nonvacuous.
 
 (* ---------------------------------------------------------------- reorient_faces *)
-(* for EVERY answer of the geometric seed test: reorientation returns the same faces in the same order,
+(* for EVERY answer of the geometric seed test (any function of the seed face): reorientation returns the same faces in the same order,
    face i reversed exactly when mask[i] is set; open edges and both index-level flags are unchanged *)
 Theorem C16_reorientation_preserves_mesh : forall fs oracle,
   let fs' := fix_trimesh_orientation fs oracle in
@@ -128,12 +128,34 @@ Example C16_propagation_nonvacuous : orientable tet.
 Proof. exact tet_orientable. Qed.
 Print Assumptions C16_propagation_nonvacuous.
 
+(* all faces outward, GIVEN a right seed test (the ray casting itself is floating-point geometry and is searched,
+   not proved): let inw say which of the given faces are wound inwards, i.e. reversing exactly those gives a
+   consistently wound mesh.  Every seed call is is_facet_inwards(msh[seed], msh) with the whole mesh, so its answer
+   is a function `orc` of the seed face alone; if orc agrees with inw on every face, then the mask is inw and the
+   result is that consistently wound mesh - for every order of faces, any number of groups, nested or not. *)
+Theorem C16_all_outward_given_right_seeds : forall tris (inw : list bool) (orc : face -> bool),
+  length inw = length tris -> consistent (apply_mask tris inw) ->
+  (forall i, i < length tris -> orc (nth i tris dface) = nth i inw false) ->
+  get_inwards_mask tris orc = inw /\ fix_trimesh_orientation tris orc = apply_mask tris inw.
+Proof. exact all_outward. Qed.
+Print Assumptions C16_all_outward_given_right_seeds.
+
+Example C16_all_outward_nonvacuous :
+  let inw := [true; false; true; false] in
+  let tris := apply_mask tet inw in
+  let orc := fun f => negb (face_in tet f) in
+  length inw = length tris /\ consistent (apply_mask tris inw) /\
+  (forall i, i < length tris -> orc (nth i tris dface) = nth i inw false) /\
+  fix_trimesh_orientation tris orc = tet.
+Proof. exact all_outward_nonvacuous. Qed.
+Print Assumptions C16_all_outward_nonvacuous.
+
 (* PARTIAL (bounded family only, decided by vm_compute): on the tetrahedron with any of the 16 subsets of its faces
    reversed, the two possible answers of the seed test give exactly opposite windings of every face (the
    orientation is determined by the seed bit).  This clause is not proved for all meshes. *)
 Theorem C16_seed_bit_determines_partial : forall m, In m (masks 4) ->
   let fs := apply_mask tet m in
-  consistent (fix_trimesh_orientation fs [false]) /\ consistent (fix_trimesh_orientation fs [true]) /\
-  list_eqb_face (fix_trimesh_orientation fs [true]) (map flip_face (fix_trimesh_orientation fs [false])) = true.
+  consistent (fix_trimesh_orientation fs (fun _ => false)) /\ consistent (fix_trimesh_orientation fs (fun _ => true)) /\
+  list_eqb_face (fix_trimesh_orientation fs (fun _ => true)) (map flip_face (fix_trimesh_orientation fs (fun _ => false))) = true.
 Proof. exact tet_orientation_bounded. Qed.
 Print Assumptions C16_seed_bit_determines_partial.
